@@ -9,6 +9,7 @@ from .. import core
 
 KINDS = ('A', 'L', 'T', 'AS', 'LS', 'A12', 'A5')
 ARRS = ('A', 'AS', 'A12', 'A5')
+TUPS = ('T', 'TK')          # TK = a Tuple that is not on the heap: every reallocating op raises and changes nothing
 
 
 class Shadow:
@@ -45,14 +46,14 @@ class Gen:
 
     def elem(self, kind):
         v = self.val(kind)
-        if kind == 'T':
+        if kind in TUPS:
             i = self.next_id; self.next_id += 1
             return (i, v)
         return v
 
     @staticmethod
     def tok(kind, e):
-        return f'{e[0]}:{e[1]}' if kind == 'T' else str(e)
+        return f'{e[0]}:{e[1]}' if kind in TUPS else str(e)
 
     def idx(self, n, oob=0.12):
         r = self.rng
@@ -71,21 +72,23 @@ class Gen:
         self.lines.append(f'del {slot}'); del self.slots[slot]
 
     def ids(self, s):
-        return {e[0] for e in s.items} if s.kind == 'T' else set()
+        return {e[0] for e in s.items} if s.kind in TUPS else set()
 
     def fresh(self, s, reuse=0.0):
         """an element for container s; for T normally a fresh object, sometimes (reuse) one already inside (-> dup-refused)"""
-        if s.kind == 'T' and s.items and self.rng.random() < reuse:
+        if s.kind in TUPS and s.items and self.rng.random() < reuse:
             return self.rng.choice(s.items), True
         return self.elem(s.kind), False
 
     def push(self, slot, cmd='push'):
         s = self.slots[slot]; e, dup = self.fresh(s, 0.02)
         self.lines.append(f'{cmd} {slot} {self.tok(s.kind, e)}')
+        if s.kind == 'TK': return
         if not dup: s.items.append(e); s.grew()
 
     def pop(self, slot):
         s = self.slots[slot]; self.lines.append(f'pop {slot}')
+        if s.kind == 'TK': return
         if s.items: s.items.pop(); s.shrank()
 
     def ins_pos(self, s, i):
@@ -109,7 +112,7 @@ class Gen:
             else: i = self.idx(n)
         self.lines.append(f'pushatelem {slot} {k} {i}' if at else f'pushelem {slot} {k}')
         kk = self.norm(n, k)
-        if kk is None or s.kind == 'T': return
+        if kk is None or s.kind in TUPS: return
         ip = self.ins_pos(s, i) if at else n
         if ip is None: return
         if s.kind in ARRS and (n + 1 > s.cap or (at and kk >= ip)): return      # own-refused
@@ -125,7 +128,7 @@ class Gen:
         s = self.slots[slot]; n = len(s.items); e, dup = self.fresh(s, 0.02)
         if i is None: i = self.idx(n)
         self.lines.append(f'pushat {slot} {self.tok(s.kind, e)} {i}')
-        if dup: return
+        if dup or s.kind == 'TK': return
         if s.kind in ARRS:
             k = i if 0 <= i <= n else (n + 1 + i if i < 0 and -(n + 1) <= i else None)
         elif s.kind in ('L', 'LS') and i == 0: k = 0
@@ -136,6 +139,7 @@ class Gen:
         s = self.slots[slot]; n = len(s.items)
         if i is None: i = self.idx(n)
         self.lines.append(f'popat {slot} {i}')
+        if s.kind == 'TK': return
         k = self.norm(n, i)
         if k is not None: del s.items[k]; s.shrank()
 
@@ -153,7 +157,7 @@ class Gen:
         if k is not None: s.items[k] = e
 
     def vals(self, s):
-        return [e[1] for e in s.items] if s.kind == 'T' else s.items
+        return [e[1] for e in s.items] if s.kind in TUPS else s.items
 
     def probe(self, s):
         vs = self.vals(s)
@@ -166,16 +170,17 @@ class Gen:
     def rem(self, slot):
         s = self.slots[slot]; v = self.probe(s)
         self.lines.append(f'rem {slot} {v}')
+        if s.kind == 'TK': return
         vs = self.vals(s)
         if v in vs: del s.items[vs.index(v)]; s.shrank()
 
     def compatible(self, dst, src, concat):
         d, s = self.slots[dst].kind, self.slots[src].kind
         if dst == src: return not concat                 # assign(x, x) is a no-op since fix a3140e4; concat(x, x) is a known finding
-        if d == 'T': return s == 'T'
+        if d in TUPS: return s in TUPS
         if d in ('AS', 'LS'): return s in ('AS', 'LS')
         if d in ('A12', 'A5'): return s == d
-        return s in ('A', 'L') or (concat and s == 'T')
+        return s in ('A', 'L') or (concat and s in TUPS)
 
     @staticmethod
     def keep(p, v):
@@ -185,6 +190,7 @@ class Gen:
         """assign(dst, filter(src, p)): an iterator-only source"""
         d, s = self.slots[dst], self.slots[src]
         self.lines.append(f'assignf {dst} {src} {p}')
+        if d.kind == 'TK': return
         if d.kind == 'T':
             ys = [e for e in s.items if self.keep(p, e[1])]
             if self.ids(d) & {e[0] for e in ys}: return          # dup-refused
@@ -198,7 +204,7 @@ class Gen:
     def two(self, cmd, dst, src):
         d, s = self.slots[dst], self.slots[src]
         self.lines.append(f'{cmd} {dst} {src}')
-        if dst == src: return
+        if dst == src or d.kind == 'TK': return
         if d.kind == 'T':
             if cmd == 'concat':
                 if self.ids(d) & self.ids(s): return
@@ -215,6 +221,7 @@ class Gen:
             n = self.rng.choice([0, m, max(0, m - 1), m // 2, m + 1, m + self.rng.randrange(1, 6), self.rng.randrange(0, m + 4)])
         if s.kind == 'LS' and n > m: n = m // 2
         self.lines.append(f'resize {slot} {n}')
+        if s.kind == 'TK': return
         if s.kind == 'T':
             if n < m: del s.items[n:]
         elif n < m: del s.items[n:]
@@ -228,7 +235,7 @@ class Gen:
         # the shadow runs the same unstable algorithm (middle-pivot Lomuto quicksort), so that it stays exact: later argument choices (and
         # staying out of known-finding territory, e.g. "assignf only into an EMPTY Tuple") depend on what each position holds
         if s.kind in ('L', 'LS'): return                       # no Sort instance: ClassError
-        val = (lambda e: e[1]) if s.kind == 'T' else (lambda e: e)
+        val = (lambda e: e[1]) if s.kind in TUPS else (lambda e: e)
         key = lambda e: val(e) // 256
         lt = [lambda a, b: val(a) < val(b), lambda a, b: key(a) < key(b), lambda a, b: key(a) > key(b), lambda a, b: key(a) <= key(b)][f]
         a = s.items; stack = [(0, len(a) - 1)]
@@ -246,7 +253,7 @@ class Gen:
 
     def copy(self, dst, src):
         self.lines.append(f'copy {dst} {src}')
-        s = self.slots[src]; self.slots[dst] = Shadow(s.kind, s.items)     # Array: assign into a zeroed struct: capacity = length
+        s = self.slots[src]; self.slots[dst] = Shadow('T' if s.kind == 'TK' else s.kind, s.items)     # Array: assign into a zeroed struct: capacity = length; the copy of a stack Tuple is a heap Tuple
 
     def simple(self, cmd, slot):
         self.lines.append(f'{cmd} {slot}')
@@ -469,8 +476,8 @@ class C04(Spec):
     level_note = ('Trusted: Lean kernel; the hand-written store-level model lean/Cello/SeqStore.lean (+ Seq.lean, Sort.lean) is tied to the C code by testing only (white-box '
                   'differential runs under ASan/UBSan), not by proof; element types in the correspondence are Int, String, a 12-byte and a 5-byte record type, heap Tuples of Int objects. '
                   'Not covered by generated inputs: concat(x, x), an Array\'s own element where the Array must grow or k >= i, assign(Tuple, filter) on a non-empty Tuple (known findings, '
-                  'modelled, refuted, with witnesses), stack Tuples and Terminal stored as an element (theorems only), lengths >= 2^63, allocation failure.')
-    rule = ('op files over 16 container slots of kinds Array<Int>, List<Int>, heap Tuple of Int objects, Array<String>, List<String>, Array<Rec12>, Array<Rec5> '
+                  'modelled, refuted, with witnesses), Terminal stored as an element (theorem only), lengths >= 2^63, allocation failure.')
+    rule = ('op files over 16 container slots of kinds Array<Int>, List<Int>, heap Tuple of Int objects, stack Tuple of Int objects (header AllocStack), Array<String>, List<String>, Array<Rec12>, Array<Rec5> '
             '(file-scope record types of 12 and 5 bytes with their own Cmp and no Swap/Assign instance: default byte-wise swap and assign, rounded Array stride; '
             'each value is encoded redundantly in the whole record so that a record assembled from two elements is detected): '
             '(a) random histories of all operations (indices uniform in -len..len-1 with 12% out of range, values from a 10-value domain / key*256+tag / wide) including '
@@ -497,7 +504,7 @@ class C04(Spec):
                    'assign(t, filter(...)) is generated only for an empty Tuple t (known finding KF-C04-tuple-assign-iter: the items are appended to a non-empty Tuple)',
                    'Tuple elements are distinct objects (a Tuple holding the same pointer twice is known finding F13: iteration and mem do not terminate); '
                    'ops that would store a pointer a second time are refused by harness and driver alike (a pointer may replace itself with set)',
-                   'Terminal is never stored as a Tuple element; Tuples are heap Tuples (both cases are covered by theorems about the cell model only)',
+                   'Terminal is never stored as a Tuple element (covered by a theorem about the cell model only); Tuples that are not on the heap are exercised as kind TK',
                    'lengths and capacities stay below 2^63; allocation does not fail',
                    'List<String> is never grown by resize (List_Resize creates String elements with a NULL buffer that no String operation accepts)',
                    'element objects are not mutated while they are in a container')
@@ -509,7 +516,7 @@ class C04(Spec):
         nrand = (150 if quick else 2500) * boost
         for i in range(nrand):
             mode = rng.choice(['small', 'small', 'keytag', 'wide'])
-            kinds = rng.choice([['A'], ['L'], ['T'], ['A', 'L'], ['A', 'L', 'T'], ['AS', 'LS'], ['A12'], ['A5'], ['A12', 'A5'], list(KINDS)])
+            kinds = rng.choice([['A'], ['L'], ['T'], ['A', 'L'], ['A', 'L', 'T'], ['T', 'TK'], ['AS', 'LS'], ['A12'], ['A5'], ['A12', 'A5'], list(KINDS), list(KINDS) + ['TK']])
             cs.append(Case(f'rand{i}', random_history(rng, 400 if quick else 500, kinds, mode, maxlen=rng.choice([12, 40, 90]))))
         # (a') index locality with a silent oracle (hidden cursor / memo state)
         for i in range((12 if quick else 120) * boost):
@@ -519,7 +526,7 @@ class C04(Spec):
             n = (70 if quick else 700) if kind != 'T' else (60 if quick else 300)
             cs.append(Case(f'sweep{kind}', growth_sweep(rng, kind, n)))
         # (c) index-exhaustive
-        for kind in KINDS:
+        for kind in KINDS + ('TK',):
             cs += chunks(f'idx{kind}', index_exhaustive(rng, kind, 4 if quick else 8), 450)
         # (d) sort inputs
         sizes = list(range(0, 12)) + ([17, 33, 64, 200] if quick else list(range(12, 70, 3)) + [100, 200, 500, 1000, 3000])
